@@ -230,3 +230,76 @@ def spec_main_wiring(ck):
             ck.add('C13/wiring/shape', 'inconclusive', 'could not read start-up state: %s' % e)
     ck.absorb(ex, 'main (start-up wiring)', None)
     ck.bounds['main-wiring'] = 'start-up block of main() up to set_rules, arbitrary configured timeouts; listeners/connectors maps empty; every other call havocked'
+
+
+def spec_copy_bidi_tick(ck):
+    """the 1 s ticker arm of copy_bidi: the tunnel is closed for idleness iff BOTH directions' is_timeout() hold, and the
+    period handed to is_timeout is the connection's own idle_timeout()"""
+    fn = ck.find(lambda: ck.db.free('copy_bidi'), 'copy_bidi')
+    if fn is None:
+        return
+    ex = ck.engine(loop_bound=3, call_depth=8)
+    ex.benign_havoc = re.compile(r'.')
+    ex.no_inline = [re.compile(r'copy_half|drain_buffers|Context::|SrcHalf|DstHalf|has_raw_fd|into_owned_fd')]
+    ex.max_paths = 600
+    st = State()
+    period = CA.mk_duration(z3.BitVec('connection_idle_period', 64))
+    verdicts = {}
+
+    def idle_timeout(ctx):
+        ctx.st.trace.append(('idle_timeout()',))
+        return period
+
+    def is_timeout(ctx):
+        who = ctx.args[0]
+        key = (who.cell, who.path) if isinstance(who, Ref) else id(who)
+        seen = ctx.st.env.get('stat_ids', ())
+        if key not in seen:
+            seen = seen + (key,)
+            ctx.st.env['stat_ids'] = seen
+        idx = seen.index(key)
+        v = z3.Bool(fresh_name('dir%d_is_idle' % idx))
+        same_period = ctx.args[1] is period or (isinstance(ctx.args[1], Agg) and ctx.args[1].name == 'Duration' and
+                                                z3.is_true(simp(ctx.args[1].fields[0].t == period.fields[0].t)))
+        ctx.st.trace.append(('is_timeout', idx, v, same_period))
+        return Bool(v)
+
+    def set_state(ctx):
+        ctx.st.trace.append(('set_state',))
+        return ctx.args[0]
+    for rx, f in ((r'Context::idle_timeout$', idle_timeout), (r'ContextStatistics::is_timeout$', is_timeout), (r'Context::set_state$', set_state)):
+        ex.overrides.append((re.compile(rx), f))
+    ctx = Ref(st.alloc(Opaque('tokio::sync::RwLock<context::Context>', 'ctx')), ())
+    params = Ref(st.alloc(Opaque('IoParams', 'params')), ())
+    outs = run_async(ex, st, fn, [ctx, params])
+    nidle = 0
+    nticks = 0
+    for o, r in outs:
+        if o.status != 'returned' or r is None:
+            continue
+        ticks = [e for e in o.trace if e[0] == 'is_timeout']
+        if not ticks:
+            continue
+        nticks += 1
+        err = r.variants.get(1, {}).get(0) if _is_err_concrete(r) else None
+        idle_err = isinstance(err, Opaque) and err.tag == ('msg', 'idle timeout')
+        # the calls of the LAST tick (a tick evaluates at most one is_timeout per direction)
+        last = []
+        for e in reversed(ticks):
+            if e[1] in [x[1] for x in last]:
+                break
+            last.append(e)
+        ex.prove(o, 'C13/tick/period-checked-is-the-connections-idle-timeout', all(e[3] for e in ticks))
+        if idle_err:
+            nidle += 1
+            dirs = set(e[1] for e in last)
+            ex.prove(o, 'C13/tick/closed-for-idleness-only-when-both-directions-were-checked', len(dirs) == 2)
+            ex.prove(o, 'C13/tick/closed-for-idleness-only-when-both-directions-are-idle', z3.And([e[2] for e in last]))
+        else:
+            # the function went on (or ended otherwise): then not both directions were idle at that tick
+            if len(set(e[1] for e in last)) == 2:
+                ex.prove(o, 'C13/tick/both-directions-idle-closes-the-tunnel', z3.Not(z3.And([e[2] for e in last])))
+    if nticks == 0 or nidle == 0:
+        ck.add('C13/tick/reachability', 'vacuous', 'ticker arm not reached in the model (%d outcomes, %d with ticks, %d idle closes)' % (len(outs), nticks, nidle))
+    ck.absorb(ex, 'copy_bidi (ticker arm)', None)
+    ck.bounds['copy_bidi-tick'] = 'copy_bidi with every callee except the ticker arm havocked; select! outcome symbolic; <= 3 loop iterations'
